@@ -129,7 +129,7 @@ class Assembly:
             elif s.startswith('//@fn '):
                 a = _args(s[len('//@fn '):])
                 j = i + 1
-                sections = {'spec': [], 'prologue': [], 'epilogue': [], 'sig': [], 'stages': [], 'loops': {}, 'closures': {}, 'subs': [], 'sigsubs': []}
+                sections = {'spec': [], 'prologue': [], 'epilogue': [], 'sig': [], 'stages': [], 'loopends': {}, 'loops': {}, 'closures': {}, 'subs': [], 'sigsubs': []}
                 cur = None
                 while src[j].strip() != '//@end':
                     t = src[j].strip()
@@ -140,6 +140,8 @@ class Assembly:
                     elif t.startswith('//@stage '):
                         st = _args(t[len('//@stage '):]); st['proof'] = []
                         sections['stages'].append(st); cur = st['proof']
+                    elif t.startswith('//@loopend '):
+                        cur = sections['loopends'].setdefault(int(t.split()[1]), [])
                     elif t.startswith('//@loop '):
                         cur = sections['loops'].setdefault(int(t.split()[1]), [])
                     elif t.startswith('//@closure '):
@@ -237,7 +239,7 @@ class Assembly:
             sig = re.sub(r'^\s*pub(\([a-z]+\))?\s+', '', sig)
         # loops / closures
         body = X.splice_closures(body, {k: '\n'.join(v) for k, v in sec['closures'].items()})
-        body = X.splice_loops(body, {k: '\n'.join(v) for k, v in sec['loops'].items()})
+        body = X.splice_loops(body, {k: '\n'.join(v) for k, v in sec['loops'].items()}, {k: '\n'.join(v) for k, v in sec.get('loopends', {}).items()})
         for st in sec.get('stages', []):
             body = X.r18_stage(body, st['name'], st['before'], '\n'.join(st['proof']), a['name'])
             log.append(('R18 let-introduction: the receiver of `%s` in the body\'s tail method chain is bound to `%s` (proof-only hint follows)' % (st['before'], st['name']), 1))
